@@ -13,6 +13,7 @@
         psb.rootkey <b> | psb.dbkeys <b> | psb.pspbinary <b> <keys>     keys = idhex:modbits:expbits,… or -
         psb.tokenkey <b> <sigLen|none> <ok|err>                          (signing key's modulus length; RSA verdict)
         zlib.decode <b> <ok|err> | brotli.decode <b> <ok|err>            (verdict of the third-party decoder)
+        apcb.parse <b> -> ok:n=<tokens>  |  cbfs.image <img> -> ok:n=<records>
   Every model runs with the budget of the theorems, 64·|input| + 16 MiB.
 -/
 import Driver.Common
@@ -23,6 +24,8 @@ import FianoModel.Fsp.Total
 import FianoModel.Fit.Total
 import FianoModel.Psb.Total
 import FianoModel.Compression.Total
+import FianoModel.Total.Apcb
+import FianoModel.Total.Cbfs
 
 open Fiano Fiano.GoM Driver
 
@@ -104,6 +107,12 @@ def exec : List String → Option (String × Nat)
     let ks ← parseKeys ks
     pure (outcome (PsbTotal.validateEntryG (budget b.length) ks b {})
       (fun v => match v with | .reach _ _ => "reach" | .nokey => "nokey" | .invalid => "invalid"))
+  | ["apcb.parse", h] => do
+    let b ← parseHex h
+    pure (outcome (ApcbTotal.parseG (budget b.length) b {}) (fun n => s!"ok:n={n}"))
+  | ["cbfs.image", h] => do
+    let b ← parseHex h
+    pure (outcome (CbfsTotal.newImageG (budget b.length) b {}) (fun n => s!"ok:n={n}"))
   | ["zlib.decode", h, v] => do
     let b ← parseHex h
     let dec ← parseVerdict v
